@@ -93,12 +93,31 @@ type c28Rec struct {
 	Seq    int // mount sequence number of the entry being unmounted (0 = unknown)
 
 	TargetExisted bool // Mount: the mount point was there before the change
+
+	// Unmount with MNT_DETACH: the entries that were mounted beneath this one
+	// after it and left the mount table together with it.
+	Vanished []string
+	// Unmount of an entry that had already left the table with a detached
+	// entry above it (EINVAL, cleared by the real code).
+	AlreadyGone bool
 }
 
+// c28Live is one row of the simulated mount table.
 type c28Live struct {
-	key string
-	dir string
-	seq int
+	key    string
+	dir    string
+	seq    int
+	origin string
+	str    string
+}
+
+// c28Gone remembers an entry that left the mount table because an entry above
+// it was detached during the current update.
+type c28Gone struct {
+	row          c28Live
+	parent       string // the detached entry
+	parentOrigin string
+	parentDir    string
 }
 
 type c28Sim struct {
@@ -110,8 +129,9 @@ type c28Sim struct {
 	depth       int
 	nestedCalls int
 	recs        []c28Rec
-	live        []c28Live
+	live        []c28Live // the simulated mount table, in mount order
 	seq         int
+	gone        map[string][]c28Gone // per update: key -> how it left the table without an Unmount of its own
 
 	failRate float64
 	caseKey  string
@@ -120,6 +140,7 @@ type c28Sim struct {
 	// counters
 	mimics, failuresInjected, failuresAfterMimic, roRefusals, typeMismatch int
 	unknownUnmounts, symlinkGoneWithParent                                 int
+	detachedWithParent, unmountsOfGone                                     int
 }
 
 func c28NewSim(t *c28Tree, caseKey string, failRate float64) *c28Sim {
@@ -178,7 +199,30 @@ func (s *c28Sim) writable(dir string) bool {
 
 func (s *c28Sim) addLive(e *osutil.MountEntry) {
 	s.seq++
-	s.live = append(s.live, c28Live{key: c28Key(e), dir: filepath.Clean(e.Dir), seq: s.seq})
+	s.live = append(s.live, c28Live{key: c28Key(e), dir: filepath.Clean(e.Dir), seq: s.seq, origin: c28Origin(e), str: e.String()})
+}
+
+// startUpdate resets what is recorded per update.
+func (s *c28Sim) startUpdate(ui int) {
+	s.update = ui
+	s.recs = nil
+	s.gone = map[string][]c28Gone{}
+}
+
+// restore puts rows that left the table with a detached entry back where they
+// were (the monitor goes on as if the record were true).
+func (s *c28Sim) restore(rows []c28Live) {
+	s.live = append(s.live, rows...)
+	sort.SliceStable(s.live, func(i, j int) bool { return s.live[i].seq < s.live[j].seq })
+}
+
+// table returns the simulated mount table as a multiset of entry keys.
+func (s *c28Sim) table() map[string]int {
+	t := make(map[string]int, len(s.live))
+	for i := range s.live {
+		t[s.live[i].key]++
+	}
+	return t
 }
 
 func (s *c28Sim) perform(c *Change, as *Assumptions) ([]*Change, error) {
@@ -366,13 +410,37 @@ func (s *c28Sim) unmount(rec *c28Rec) {
 			break
 		}
 	}
+	dir := filepath.Clean(e.Dir)
 	if found >= 0 {
-		rec.Seq = s.live[found].seq
+		pseq := s.live[found].seq
+		rec.Seq = pseq
 		s.live = append(s.live[:found], s.live[found+1:]...)
+		if e.XSnapdDetach() {
+			// MNT_DETACH takes the whole subtree of mounts that sit on top of
+			// this one: everything mounted later on its directory or at a path
+			// beneath it. What was mounted there earlier lies underneath and
+			// stays. (The change is taken to reach the entry it names.)
+			keep := s.live[:0]
+			for _, l := range s.live {
+				if l.seq > pseq && (l.dir == dir || c28Beneath(l.dir, dir)) {
+					s.gone[l.key] = append(s.gone[l.key], c28Gone{row: l, parent: e.String(), parentOrigin: c28Origin(e), parentDir: dir})
+					rec.Vanished = append(rec.Vanished, l.str)
+					s.detachedWithParent++
+					continue
+				}
+				keep = append(keep, l)
+			}
+			s.live = keep
+		}
+	} else if g := s.gone[key]; len(g) > 0 {
+		// left the table together with a detached entry above it: the real
+		// unmount gets EINVAL, which is cleared
+		rec.Seq = g[len(g)-1].row.seq
+		rec.AlreadyGone = true
+		s.unmountsOfGone++
 	} else {
 		s.unknownUnmounts++
 	}
-	dir := filepath.Clean(e.Dir)
 	if e.Type == "tmpfs" {
 		if s.tmpfs[dir] > 0 {
 			s.tmpfs[dir]--
